@@ -88,7 +88,7 @@ def obligations(tier, rng):
                 out.append(ob('C19', 'grid', 'F1/%s/P=%s/N=%d' % (text(f), P, N), f=f, N=N, P=P, max_paths=30000, wall=900))
                 if not refsem.has_future(f) and N <= 5:
                     out.append(ob('C19', 'grid', 'F1-online/%s/P=%s/N=%d' % (text(f), P, N), f=f, N=N, P=P, mode='online', max_paths=30000, wall=900))
-    f2 = refsem.depth2(ops, ops, [(0, 1), (1, 2)])
+    f2 = refsem.depth2([k for k in ops if k != 'mul'], ops, [(0, 1), (1, 2)])     # no product of two compound terms (z3 NRA)
     f2 = [f for f in f2 if len(variables(f)) <= 2 or f[0] in FR_BIN]
     if quick:
         f2 = rng.sample(f2, 60)
